@@ -302,8 +302,8 @@ Definition format_patch_date (secs offset : Z) : option bytes :=
   end.
 
 (* parse_patch_date on the canonical shape "<19 chars> [+-]HHMM"; the regex is more lenient
-   (free field widths, optional blanks): not modelled.  Note offset_hours carries the sign but
-   offset_minutes does not: "-0330" gives -3*3600 + 30*60. *)
+   (free field widths, optional blanks): not modelled.  The sign of the "[+-]HH" group applies
+   to the minutes as well (repaired 2026-09-22: "-0330" used to give -3*3600 + 30*60). *)
 Definition parse_patch_date (s : bytes) : option (Z * Z) :=
   let dt := firstn 19 s in
   match skipn 19 s with
@@ -313,7 +313,8 @@ Definition parse_patch_date (s : bytes) : option (Z * Z) :=
         | Some hh, Some mm =>
             let offset_hours := if (sg =? DASH)%N then - hh else hh in
             if (24 <=? Z.abs offset_hours) || (60 <=? mm) then None else
-            let offset := offset_hours * 3600 + mm * 60 in
+            let offset_minutes := if (sg =? DASH)%N then - mm else mm in
+            let offset := offset_hours * 3600 + offset_minutes * 60 in
             match parse_dt dt with
             | Some t => Some (t - offset, offset)
             | None => None
